@@ -419,6 +419,11 @@ class QosWorld:
             self.deliver(self.pending.pop(a[1]))
         elif k == "call":
             self.start_caller(a[1])
+            # callers marked start="with_prev" arrive in the same instant as the one before them (a backlog building up at once)
+            j = a[1] + 1
+            while j < len(self.params["callers"]) and self.callers[j] is None and self.params["callers"][j].get("start") == "with_prev":
+                self.start_caller(j)
+                j += 1
         elif k == "disc":
             L = lib()
             self.connected = False
